@@ -1,13 +1,15 @@
 #!/bin/bash
 # benign_check.sh : every check must stay silent on every behaviour-preserving rewrite in selftest/benign
-MX=/tmp/mxb; mkdir -p $MX
+ROOT=$(cd "$(dirname "$0")/.." && pwd)
+MX=${MXDIR:-/tmp/mxb}; mkdir -p $MX
 [ -d $MX/repo ] || git -C /repo worktree add -q --detach $MX/repo HEAD
+git -C $MX/repo checkout -q -- . ; git -C $MX/repo checkout -q --detach $(git -C /repo rev-parse HEAD)
 export BPV_REPO=$MX/repo BPV_WORK=$MX/work BPV_EVID=$MX/evidence
 mkdir -p $BPV_WORK $BPV_EVID
 RC=0
-for P in /verif/selftest/benign/*.patch; do
+for P in $ROOT/selftest/benign/*.patch; do
   cd $MX/repo && git checkout -q -- . && git apply $P || { echo "$(basename $P) APPLY-FAILED"; RC=1; continue; }
-  OUT=$(cd /verif && ./bpv all 2>&1)
+  OUT=$(cd $ROOT && ./bpv all 2>&1)
   BAD=$(echo "$OUT" | grep "^\[C" | grep -v "violations=0" | awk '{print $1}' | tr '\n' ' ')
   if [ -n "$BAD" ]; then RC=1; echo "$(basename $P): FALSE ALARM in $BAD"; echo "$OUT" | grep -A2 "^VIOLATION" | grep -v "^VIOLATION\|^--" | cut -c1-260 | head -8; else echo "$(basename $P): silent"; fi
 done
